@@ -82,3 +82,44 @@ def register(PROPS, h):
         exhaustive=dict(quick="all event sequences of length 5 over the reduced 2-peer/1-repository alphabet (12 symbols)", thorough="all event sequences of length 6 over the reduced alphabet"),
         runs=dict(quick=[native("h-node", "C16")], thorough=[native("h-node", "C16"), native("h-node", "C16", profile="release")]),
     )
+
+    PROPS["C14"] = dict(
+        title="Frame decoding is memory-bounded and chunking-independent",
+        level="exploration",
+        technique="runtime allocation accounting (counting #[global_allocator], refusing allocator in a child process) around the real frame Deserializer; round-trip oracle over all split points; error-vs-incomplete oracle on complete frames with damaged payloads",
+        rule=("(a) headers for gossip/git streams with declared payload lengths {0,1,63,64,16383,16384,65535,3e5,2^20-1,2^20,2^30-1,2^30,2^40,2^62-1} "
+              "in every legal varint width (also non-minimal), followed by 0..40 payload bytes, plus random lengths: largest single "
+              "allocation request and peak live bytes during deserialize_next must be <= 256 KiB + 4 x bytes received (lengths >= 1 MiB "
+              "run in a child process whose allocator refuses > 64 MiB; a refusal/abort is the observation). (b) sequences of 1-4 "
+              "control/git/gossip frames (real messages) encoded and fed split at EVERY single split point (<= 600 bytes) or at random "
+              "multi-splits and byte-by-byte: decoded frames == sent frames, nothing left over, no error. (c) complete gossip frames whose "
+              "payload is a truncation of a valid message at every length (sampled for long messages), followed by a valid frame: the "
+              "result must not be Ok(None). Non-trivial = memory case with declared > supplied, or any chunking case; distinct by bytes."),
+        assumptions=[TB, "hook: radicle_node::wire::verif re-exports the private Frame/StreamId/Control types (feature `verif`)", "the bound constants (256 KiB, factor 4) cover the 64 KiB initial buffer and Vec growth"],
+        gates=dict(quick={"memory.cases-with-declared-length-larger-than-supplied": 2000, "memory.child-process-cases": 100, "chunking.split-variants": 50000, "invalid-inner.complete-frame-with-truncated-message": 5000, "invalid-inner.reported-as-error": 3000},
+                   thorough={"chunking.split-variants": 1500000, "invalid-inner.complete-frame-with-truncated-message": 100000}),
+        runs=dict(quick=[native("h-node", "C14")], thorough=[native("h-node", "C14"), native("h-node", "C14", profile="release")]),
+    )
+
+    PROPS["C13"] = dict(
+        title="No input from a remote peer can crash the node",
+        level="exploration",
+        technique="runtime crash monitor: catch_unwind around every peer-driven call into the real Service / frame Deserializer / pkt-line parser; bytes-level workload in child processes so that aborts are observed as the child's death; ASan build of the same workload in the thorough tier",
+        rule=("(i) 20-59 step schedules against a real Service with 4 peers: every message variant with boundary values (timestamps 0, 1, MAX, "
+              "now+1h, now+1h+1, old; subscribe ranges incl. since>until and MAX/MAX; inventories of 0/1/3/2973 ids, 0/1/2/1024 refs; ping/pong "
+              "sizes at and above the limits; announcements by the relayer, by others, by the local node's own key; valid and foreign "
+              "signatures) delivered in every session state (unknown, initial, attempted, connected inbound/outbound) mixed with "
+              "connects, dials, disconnects and clock advances; Io::Disconnect honoured. (ii) 1-3 frames per case: valid gossip frames "
+              "from the same generator, mutated (bit flips, truncation, boundary bytes, appended bytes), random bytes, and headers with "
+              "boundary varint lengths up to 2^62-1, fed in random chunks of 1-64 bytes to Deserializer<_, Frame>; every decoded gossip "
+              "message is handed to a live Service. Runs in child processes of 2000 cases; a child that dies is bisected to the case. "
+              "(iii) git request lines with length fields 0000..0004, 0400, 0401, ffff, non-hex, random and correct, over valid, mutated, "
+              "over-long and random bodies, into the real pkt-line parser. Oracle: no panic, no process death. Non-trivial/distinct = "
+              "service schedule seed, header bytes."),
+        assumptions=SVC_TB + ["hooks: wire::verif (Frame) and worker::verif::git_request (feature `verif`)"],
+        gates=dict(quick={"bytes.cases": 150000, "bytes.cases-decoding-at-least-one-frame": 60000, "header.cases": 150000, "header.accepted": 4000, "header.rejected": 40000,
+                          "service.message:subscribe@connected-inbound": 1500, "service.message:announcement@connected-inbound": 5000, "service.message:announcement@unknown": 1500, "service.message:announcement@attempted": 150, "service.message:ping@connected-outbound": 200},
+                   thorough={"bytes.cases": 7000000, "header.cases": 7000000}),
+        runs=dict(quick=[native("h-node", "C13")],
+                  thorough=[native("h-node", "C13"), native("h-node", "C13", profile="release"), dict(crate="h-node", prop="C13", wrapper="asan", cases=40000, shards=16, label="h-node:C13:asan", timeout=3600)]),
+    )
